@@ -371,3 +371,20 @@ extern "C" void h_pfc_c07hist() {
   delete d;
   verif_witness();
 }
+
+// ---- C06: images are self-delimiting - two images back to back in ONE stream load to two equivalent dictionaries
+extern "C" void h_pfc_two_images() {
+  Built b;
+  StringDictionaryPFC *d = build(b, BS);
+  d->save(*verif_ostream(0));
+  unsigned long w = verif_stream_written(0);
+  d->save(*verif_ostream(0));                 // second image appended to the same stream
+  std::istream *in = verif_istream(0);        // rewinds once; the two loads below continue where the previous one stopped
+  StringDictionary *r1 = StringDictionaryPFC::load(*in);
+  verif_assert(r1 != 0 && verif_stream_consumed(0) == w, 1);
+  StringDictionary *r2 = StringDictionaryPFC::load(*in);
+  verif_assert(r2 != 0 && verif_stream_consumed(0) == 2 * w && !verif_stream_failed(0), 2);
+  if (r2) c01_queries(r2, b);
+  delete r1; delete r2; delete d;
+  verif_witness();
+}
